@@ -160,6 +160,9 @@ pub fn run(ctx: &mut Ctx) -> Result<RunOut, Violation> {
     if focus == "C18" && ctx.tape.chance(1, 8) {
         return run_metadata(ctx);
     }
+    if focus == "C18" && ctx.tape.chance(1, 12) {
+        return run_huge(ctx);
+    }
     let t = &mut ctx.tape;
     let len = gen_size(t);
     let seed = t.draw(u32::MAX) as u64;
@@ -752,4 +755,119 @@ fn run_concurrent(ctx: &mut Ctx) -> Result<RunOut, Violation> {
         ctx.sample = Some(json!({"case": desc}));
     }
     Ok(RunOut { sig, nontrivial: switches > 0 })
+}
+
+/// Sparse multi-gigabyte files: ranges of 4 GiB and more, of which only the first few chunks
+/// are pulled (a narrowing cast or 32-bit arithmetic in the read-size computation shows at once).
+fn run_huge(ctx: &mut Ctx) -> Result<RunOut, Violation> {
+    use std::os::unix::fs::FileExt as _;
+    let t = &mut ctx.tape;
+    const G4: u64 = 1 << 32;
+    let len = [G4 - 1, G4, G4 + 1, G4 + 65536, 2 * G4, G4 / 2, 3 * (G4 / 2), 1 << 40, G4 + 65535, 5 * G4 + 12345][t.draw(10) as usize];
+    let a = [0u64, 0, 1, 12345, 65536, G4 - 5, len / 2][t.draw(7) as usize].min(len - 1);
+    let b = match t.draw(4) {
+        0 | 1 => len,
+        2 => (a + G4).min(len),
+        _ => (a + G4 + 65536).min(len),
+    };
+    let via_serve = t.chance(1, 2);
+    let pulls = 1 + t.draw(3) as usize;
+    let seed = t.draw(u32::MAX) as u64;
+    let dir = scratch_dir();
+    let path = dir.join("h");
+    let w = write_file(&path, seed, 0);
+    w.set_len(len).expect("sparse file");
+    // A few real bytes where the stream will read, so that offsets are checked too.
+    let marks: Vec<u8> = (0..4096u64).map(|i| ebyte(seed, i)).collect();
+    let fit = |off: u64| &marks[..(len - off).min(marks.len() as u64) as usize];
+    w.write_all_at(fit(a), a).expect("write markers");
+    let second = (a + 65536).min(len.saturating_sub(4096));
+    w.write_all_at(fit(second), second).expect("write markers");
+    let rfile = File::open(&path).expect("open");
+    let check = File::open(&path).expect("open");
+    let crf = match Crf::new(rfile, HeaderMap::new()) {
+        Ok(c) => c,
+        Err(e) => return violation("C18", "regular-file-refused", e.to_string()),
+    };
+    let desc = format!("sparse file of {len} bytes, range {a}..{b} ({} bytes), via_serve={via_serve}, first {pulls} chunks pulled", b - a);
+    ctx.ev("huge", len, a ^ b.rotate_left(17));
+    if crf.len() != len {
+        return violation("C18", "len-differs", format!("{desc}: len() = {}", crf.len()));
+    }
+    let (_f, waker) = crate::a_drain::new_waker();
+    let mut cx = Context::from_waker(&waker);
+    let r = catch(|| -> Result<(), String> {
+        let mut off = a;
+        if via_serve {
+            let req = http::Request::builder().method("GET").uri("/h").header("range", format!("bytes={}-{}", a, b - 1)).body(()).unwrap();
+            let resp = http_serve::serve(crf.clone(), &req);
+            let whole = a == 0 && b == len;
+            if resp.status().as_u16() != 206 && !(whole && resp.status().as_u16() == 200) {
+                return Err(format!("status {}", resp.status()));
+            }
+            let cl = resp.headers().get("content-length").and_then(|v| v.to_str().ok()).and_then(|v| v.parse::<u64>().ok());
+            if cl != Some(b - a) {
+                return Err(format!("Content-Length {cl:?}, expected {}", b - a));
+            }
+            let mut body: std::pin::Pin<Box<SimBody>> = Box::pin(resp.into_body());
+            for i in 0..pulls {
+                if off >= b {
+                    break;
+                }
+                match http_body::Body::poll_frame(body.as_mut(), &mut cx) {
+                    Poll::Ready(Some(Ok(f))) => {
+                        let mut d = f.into_data().map_err(|_| "trailers".to_string())?;
+                        let n = d.remaining();
+                        if n == 0 || n as u64 > b - off {
+                            return Err(format!("frame #{} has {n} bytes with {} bytes left in the range", i + 1, b - off));
+                        }
+                        let got = d.copy_to_bytes(n);
+                        let mut want = vec![0u8; n];
+                        check.read_exact_at(&mut want, off).map_err(|e| e.to_string())?;
+                        if got[..] != want[..] {
+                            return Err(format!("frame #{} at offset {off} does not hold the file's bytes", i + 1));
+                        }
+                        off += n as u64;
+                    }
+                    other => return Err(format!("poll #{} on an unmodified file gave {:?}", i + 1, other.map(|o| o.map(|r| r.map(|_| "frame")))).replace("SimError", "")),
+                }
+            }
+        } else {
+            let mut s = crf.get_range(a..b);
+            for i in 0..pulls {
+                if off >= b {
+                    break;
+                }
+                match s.as_mut().poll_next(&mut cx) {
+                    Poll::Ready(Some(Ok(mut d))) => {
+                        let n = d.remaining();
+                        if n == 0 || n as u64 > b - off {
+                            return Err(format!("chunk #{} has {n} bytes with {} bytes left in the range", i + 1, b - off));
+                        }
+                        let got = d.copy_to_bytes(n);
+                        let mut want = vec![0u8; n];
+                        check.read_exact_at(&mut want, off).map_err(|e| e.to_string())?;
+                        if got[..] != want[..] {
+                            return Err(format!("chunk #{} at offset {off} does not hold the file's bytes", i + 1));
+                        }
+                        off += n as u64;
+                    }
+                    Poll::Ready(Some(Err(e))) => return Err(format!("poll #{} on an unmodified file failed: {e:?}", i + 1)),
+                    Poll::Ready(None) => return Err(format!("stream ended after {} of {} bytes", off - a, b - a)),
+                    Poll::Pending => return Err("Pending".into()),
+                }
+            }
+        }
+        Ok(())
+    });
+    let _ = w.set_len(0);
+    match r {
+        Err(p) => violation("C18", "panic", format!("{p}; {desc}")),
+        Ok(Err(e)) => violation("C18", "huge-range", format!("{desc}: {e}")),
+        Ok(Ok(())) => {
+            ctx.stats.bump("c18_huge_sparse_ranges");
+            ctx.stats.grid.insert(format!("huge|len={len}|serve={via_serve}"));
+            Ok(RunOut { sig: mix(mix(0x4A6E, len), a ^ (via_serve as u64) << 60 ^ b), nontrivial: true })
+        }
+    }
 }
